@@ -7,6 +7,7 @@ import (
 	"crypto/sha256"
 	"encoding/json"
 	"fmt"
+	"math/big"
 	"sort"
 	"time"
 
@@ -38,6 +39,7 @@ import (
 	haqqtypes "github.com/haqq-network/haqq/types"
 	"github.com/haqq-network/haqq/utils"
 	coinomicstypes "github.com/haqq-network/haqq/x/coinomics/types"
+	"github.com/haqq-network/haqq/x/evm/statedb"
 )
 
 const (
@@ -494,4 +496,30 @@ func DiffStores(a, b map[string]map[string][]byte) []Diff {
 
 func (d Diff) String() string {
 	return fmt.Sprintf("%s/%X: %X -> %X", d.Store, d.Key, d.A, d.B)
+}
+
+// InstallCode writes contract code at addr through the EVM StateDB of the block in progress (like a deployment
+// without running init code). Must be called inside a block.
+func (n *Node) InstallCode(addr common.Address, code []byte) {
+	ctx := n.Ctx()
+	db := statedb.New(ctx, n.App.EvmKeeper, statedb.NewEmptyTxConfig(common.BytesToHash(ctx.HeaderHash().Bytes())))
+	db.SetCode(addr, code)
+	if err := db.Commit(); err != nil {
+		panic(err)
+	}
+}
+
+// Storage reads a contract storage slot from the deliver state.
+func (n *Node) Storage(addr common.Address, slot common.Hash) common.Hash {
+	return n.App.EvmKeeper.GetState(n.Ctx(), addr, slot)
+}
+
+// Balance reads the native balance from the deliver state.
+func (n *Node) Balance(addr sdk.AccAddress) *big.Int {
+	return n.App.BankKeeper.GetBalance(n.Ctx(), addr, Denom).Amount.BigInt()
+}
+
+// Supply reads the native total supply from the deliver state.
+func (n *Node) Supply() *big.Int {
+	return n.App.BankKeeper.GetSupply(n.Ctx(), Denom).Amount.BigInt()
 }
